@@ -19,8 +19,8 @@ package vanguard
 import "bytes"
 
 type verifHooksOff struct {
-	BufGet  func(pool any) *bytes.Buffer
-	BufPut  func(pool any, buffer *bytes.Buffer) bool
+	BufGet func(pool any) *bytes.Buffer
+	BufPut func(pool any, buffer *bytes.Buffer) bool
 }
 
 const verifEnabled = false
